@@ -183,7 +183,9 @@ def items_for(inner):
         g = st.sampled_from([0, 1, "a", "b"])
     else:
         g = st.sampled_from(good[inner])
-    other = st.sampled_from([True, 1, 1.5, "a", None, [1], [1, "x"], [1, 2, 3], {"t": [1]}, 2 ** 70, {"idx": 1}, [], "1", 2])
+    # (True / 1.0 / 2 ... are EQUAL to valid members but of another type: operations that only remove must not swap them in)
+    other = st.sampled_from([True, 1, 1.5, "a", None, [1], [1, "x"], [1, 2, 3], {"t": [1]}, 2 ** 70, {"idx": 1}, [], "1", 2,
+                             1.0, 2.0, 0.0, 3.0, True, 2, 0])
     return st.one_of(g, g, g, g, g, g, g, other, other, other)
 
 
@@ -226,6 +228,7 @@ def set_ops(inner):
         st.tuples(st.just("ior"), its), st.tuples(st.just("ixor"), its), st.tuples(st.just("sdu"), its),
         st.tuples(st.just("discard"), it), st.tuples(st.just("remove"), it), st.tuples(st.just("iand"), its),
         st.tuples(st.just("isub"), its), st.tuples(st.just("difference_update"), its), st.tuples(st.just("pop")),
+        st.tuples(st.just("intersection_update"), its), st.tuples(st.just("iand"), its),
         st.tuples(st.just("clear")), st.tuples(st.just("assign"), its),
         st.tuples(st.just("assign_other"), st.sampled_from([None, 5, [1]])),
     ).map(list)
@@ -392,7 +395,9 @@ def m_set(m, op, c):
         return out
     if k == "add":
         y = c(op[1]); hash(y); m.add(y)
-    elif k in ("update", "ior"):
+    elif k == "ior":
+        m.update(cs(set(op[1])))          # (the operand really is set(items): equal items have collapsed already)
+    elif k == "update":
         m.update(cs(op[1]))
     elif k in ("ixor", "sdu"):
         values = set(op[1])
@@ -404,8 +409,11 @@ def m_set(m, op, c):
         m.discard(op[1])
     elif k == "remove":
         m.remove(op[1])
-    elif k == "iand":
-        m &= set(op[1])
+    elif k in ("iand", "intersection_update"):
+        # (the builtin decides what is an error: it does not hash every item of a list argument)
+        other = set(op[1]) if k == "iand" else set(m).intersection(op[1])
+        for x in [x for x in m if x not in other]:      # the members that stay are the set's OWN (validated) objects
+            m.discard(x)
     elif k == "isub":
         m -= set(op[1])
     elif k == "difference_update":
@@ -437,6 +445,8 @@ def r_set(s, op):
         s.remove(op[1])
     elif k == "iand":
         s &= set(op[1])
+    elif k == "intersection_update":
+        s.intersection_update(op[1])
     elif k == "isub":
         s -= set(op[1])
     elif k == "difference_update":
@@ -634,7 +644,15 @@ def run(case, ctx):
             if r not in model or got != model - {r}:
                 ctx.fail("model/contents", "set.pop returned %r leaving %r: %s" % (r, got, what()))
         elif typed(got) != typed(expected):
-            ctx.fail("model/contents", "contents %r, model %r: %s" % (got, expected, what()))
+            sig = ""
+            if kind == "dict" and k == "setdefault":
+                # F6 (recorded for C06): setdefault(raw_key) with raw_key absent but its validated form present
+                try:
+                    if op[1] not in model and conv(tspec[1], op[1]) in model:
+                        sig = "/setdefault-coerced-existing-key"
+                except Exception:
+                    pass
+            ctx.fail("model/contents" + sig, "contents %r, model %r: %s" % (got, expected, what()))
         if after_all != before_all and not ev:
             ctx.fail("success/silent", "contents changed but nobody was notified: %s" % what())
     if interesting:
@@ -643,4 +661,4 @@ def run(case, ctx):
 
 def stages(tier):
     return [{"name": "hist", "kind": "hyp", "strategy": strategy, "run": run,
-             "examples": {"quick": 3000, "thorough": 300000}, "shards": 16}]
+             "examples": {"quick": 12000, "thorough": 300000}, "shards": 16}]
